@@ -216,6 +216,11 @@ class BaseSQLURLTable(BaseURLTable):
             for url in urls:
                 url_str_id = session.query(URLString.id)\
                     .filter_by(url=url).scalar()
+                url_id_subquery = select([QueuedURL.id])\
+                    .where(QueuedURL.url_string_id == url_str_id)
+                query = delete(QueuedFile).where(
+                    QueuedFile.queued_url_id.in_(url_id_subquery))
+                session.execute(query)
                 query = delete(QueuedURL).where(QueuedURL.url_string_id == url_str_id)
                 session.execute(query)
 
